@@ -387,6 +387,12 @@ func c20StatsOne(r *Run, nh int, oc, kind string) {
 			time.Sleep(time.Millisecond)
 		}
 	}
+	if kind == "unary" && (oc == "cancel" || oc == "deadline" || oc == "precancel") {
+		// whatever the client still tells the server about a unary call its caller gave up on gets the time
+		// to arrive: the server must not take it for ANOTHER request (one RPC: one pass through the chain,
+		// one Begin / End per stats handler)
+		time.Sleep(40 * time.Millisecond)
+	}
 	rig.Close()
 	// server side End is emitted before Serve returns for streams; unary workers may lag: wait likewise
 	for _, s := range srecs {
